@@ -159,10 +159,10 @@ pub fn parameter_has_annotation(lines: &[&str], line: usize, end_char: usize) ->
         return false;
     };
 
-    // Get the text after the parameter name
-    let after_param = if end_char < line_text.len() {
-        &line_text[end_char..]
-    } else {
+    // Get the text after the parameter name. The position comes from the last successful
+    // analysis and can be stale relative to `lines` (e.g. while the document does not
+    // parse), so it may lie past the end of the line or inside a multi-byte character.
+    let Some(after_param) = line_text.get(end_char..).filter(|s| !s.is_empty()) else {
         return false;
     };
 
